@@ -151,7 +151,7 @@ func main() {
 		}
 	}
 	run := common.NewRun("C06")
-	run.Res.Rule = "cases = programs of the C06 mini-language (call tree of functions func(a int)(r int) over print / call / defer f(arg) / defer fmt.Println / defer delete / defers in loops / panic(value of 3 types) / 7 run-time fault kinds / recover / re-panic of the recovered value / named-result assignment), generated from a seeded grammar in five streams (dom: inside the proved domain; pending, argref, repanic, wild: the three modelled divergence classes allowed), each rendered to Go source with callees as literals, named functions, value and pointer methods, run by yaegi in two driving styles (main run by Eval; definitions then Eval of a call) and compiled natively; non-trivial = contains at least one defer statement and one panic/fault; distinct = distinct protocol line"
+	run.Res.Rule = "cases = programs of the C06 mini-language (call tree of functions func(a int)(r int) over print / call / defer f(arg) / defer fmt.Println / defer delete / defers in loops / panic(value of 3 types) / 7 run-time fault kinds / recover / re-panic of the recovered value / named-result assignment), generated from a seeded grammar in four streams (dom: inside the proved domain; pending, repanic, wild: the two modelled divergence classes allowed; in every stream a call / defer argument may be the named result variable, which is assigned before and after), plus raw-source regressions of repaired findings (F06-1: every argument kind at the three defer sites), each rendered to Go source with callees as literals, named functions, value and pointer methods, run by yaegi in two driving styles (main run by Eval; definitions then Eval of a call) and compiled natively; non-trivial = contains at least one defer statement and one panic/fault; distinct = distinct protocol line"
 	defer run.Finish()
 	drv, err := common.StartDriver("C06")
 	if err != nil {
@@ -217,6 +217,23 @@ func main() {
 			run.Res.Known = append(run.Res.Known, common.KnownReplay{ID: f.ID, Status: f.Status, What: f.What,
 				StillFails: im.String() != rf.String(), Detail: fmt.Sprintf("impl=%s ref=%s", im, rf)})
 		}
+		// raw-source regressions of repaired findings: any disagreement is an unlisted failing input
+		for _, rg := range regressions {
+			im, rf := replaySrc(rg.Src)
+			run.Count("regression:"+rg.ID, true)
+			run.Hit("regression:" + rg.ID)
+			if strings.HasPrefix(rf.Status, "harness-error") || strings.HasPrefix(rf.Status, "cerr") {
+				run.Errorf("regression %s: the reference did not build: %s", rg.ID, rf.Status)
+				continue
+			}
+			if im.String() != rf.String() {
+				// the label is not a listed class (the finding is `fixed`): reported, under its own key, next to
+				// whatever the generated programs show
+				class := "regression:" + rg.ID
+				run.Disagree(common.Disagreement{Kind: "impl-vs-ref", Input: replayT{Kind: "src", Src: rg.Src, Class: class}, Impl: im.String(), Ref: rf.String(),
+					Finding: class, Note: "regression of a repaired finding: " + rg.ID})
+			}
+		}
 		n := 2400
 		if run.Thorough() {
 			n = 40000
@@ -226,8 +243,6 @@ func main() {
 			switch i % 10 {
 			case 5, 6:
 				stream = "pending"
-			case 7:
-				stream = "argref"
 			case 8:
 				stream = "repanic"
 			case 9:
